@@ -86,17 +86,16 @@ class ItemAttributeList(List[T]):
         list.insert(self, index, obj)
 
     def remove(self, obj: T) -> None:
-        list.remove(self, obj)
-
-        keys = [k for (k, v) in self._item_dict.items() if v == obj]
-        for key in keys:
-            del self._item_dict[key]
+        self.pop(list.index(self, obj))
 
     def pop(self, index: SupportsIndex = -1) -> T:
         result = list.pop(self, index)
-        keys = [k for (k, v) in self._item_dict.items() if v == result]
-        for key in keys:
-            del self._item_dict[key]
+        # only drop the name of the object which was removed, not
+        # the names of all items that compare equal to it
+        for key, value in self._item_dict.items():
+            if value is result:
+                del self._item_dict[key]
+                break
         return result
 
     def extend(self, items: Iterable[T]) -> None:
